@@ -362,3 +362,18 @@ PROPS["C02"] = dict(
     assumptions=["weights are read through the build-tag accessor VerifParameters"],
     stages=_c02,
 )
+
+PROPS["C16"] = dict(
+    rule="(A) BFS: 7 per-sample models (Gemm+Relu, MatMul+Add+Abs, Conv+Flatten, Transpose/Squeeze/Unsqueeze, GRU, LSTM, RNN along their "
+         "batch axis) x every batch drawn from a pool of 3 samples of size 1..3 (sub-selections, permutations, repeats): the batch and "
+         "then each sample alone are run on one real Model and every output is compared exactly with RunSem; TLC also checks the "
+         "specification's BatchIndependent theorem on every batch. (B) trace validation: the repository's sample models mlp, gru, ndm, "
+         "scaler are run on random batches (size 1..4), every sample alone, a permutation and a sub-selection with a repeated sample; "
+         "Trace_Batch.tla accepts the recorded trace only if every row agrees with the row of the same sample in the batch run; "
+         "non-trivial = every batch / every recorded event",
+    assumptions=["sample-model values are not recomputed (relational check, tolerance 2 + |v|/2^15 in units of 2^-16)"],
+    stages=lambda tier: [
+        mc("batch-exact", "MC_C16.tla", "MC_C16_%s.cfg" % tier, min_cases=250, workers=8),
+        trace("sample-models-batch-relation", ["batch", "-n", "15" if tier == "quick" else "120"], "Trace_Batch.tla", "Trace_Batch.cfg"),
+    ],
+)
